@@ -1,34 +1,43 @@
 import CTV.Basic.Proto
-import CTV.Model.Tbs
+import CTV.Model.TbsLax
+import CTV.Sha256
 import CTV.Gen.TbsFacts
 /-! ctvmodel C03: replays the lines of the C03 harness on the TBSCertificate model.
 
-Answers: `noncanon` = the input is not a canonical TBSCertificate (the model — like the property — has no
-opinion on the transformation's bytes there; the harness prints the same word when the real
-unmarshal→marshal does not reproduce the input, so the *domain* is compared on every line);
-`err` = the Go function returns an error; `ok …` = its result. -/
+Every line is answered for **every** input: `err` = the Go function returns an error, `ok …` = its result. `canon` lines give the
+domain of the canonical model (`parseTbs`); the results come from the model of everything the fork accepts (`laxTbs`,
+CTV/Model/TbsLax.lean). On every line the driver also asserts the two facts that tie the two models together and are not proved
+(Props/C03.lean `routes_commute_accepted_partial`): the normal form the lax model
+produces is well-formed; a violated assertion is answered `MODEL-INCONSISTENT …`, which can never equal the implementation's answer. -/
 namespace CTV.Driver.C03
 open CTV CTV.Proto CTV.Tbs
-
-def lim : SctLimits := ⟨Gen.sctItemMin, Gen.sctItemMax, Gen.sctListMin, Gen.sctListMax⟩
 
 def poison : Bytes := oidContent Gen.oidCTPoison
 def sct : Bytes := oidContent Gen.oidCTSCT
 
-def parsePre : List String → Option (Option PreIssuer)
+def parseList : Nat → List String → Option (List Bytes × List String)
+  | 0, rest => some ([], rest)
+  | n + 1, s :: rest =>
+    match fromHex s, parseList n rest with
+    | some b, some (l, r) => some (b :: l, r)
+    | _, _ => none
+  | _, _ => none
+
+/-- `nil` | `c1 <RawIssuer> <none | v:AKI value> <n> <eku oid>…` -/
+def parseC1 : List String → Option (Option Chain1)
   | ["nil"] => some none
-  | ["pre", iss, aki, eku] =>
-    match fromHex iss, parseBool? eku with
-    | some ib, some e =>
-      match parseOne ib with
-      | none => none
-      | some it =>
-        if aki = "none" then some (some ⟨it, none, e⟩)
+  | "c1" :: iss :: aki :: n :: ekus =>
+    match fromHex iss, parseNat? n with
+    | some ib, some n =>
+      match parseOne ib, parseList n ekus with
+      | some it, some (es, []) =>
+        if aki = "none" then some (some ⟨es, it, none⟩)
         else if aki.startsWith "v:" then
           match fromHex (aki.drop 2).toString with
-          | some v => some (some ⟨it, some v, e⟩)
+          | some v => some (some ⟨es, it, some v⟩)
           | none => none
         else none
+      | _, _ => none
     | _, _ => none
   | _ => none
 
@@ -38,64 +47,88 @@ def showRes : Option Bytes → String
 
 def showLeaf : Option (Bytes × Bytes) → String
   | none => "err"
-  | some (b, [i]) => s!"ok {hexOrDash b} {i.toNat}"
-  | some _ => "bad-key"
+  | some (b, k) => s!"ok {hexOrDash b} {toHex (Sha256.hash k)}"
 
-/-- stand-ins for the SubjectPublicKeyInfos of chain[1:]: position `k` carries the one-byte key `k` -/
-def keysOf (chainLen : Nat) : List Bytes := (List.range chainLen).drop 1 |>.map (fun k => [UInt8.ofNat k])
-
-def onTbs (h : String) (f : Bytes → String) : String :=
+/-- The one fact about the lax model that is not proved (Props/C03.lean, `routes_commute_accepted_partial`): the normal form it
+produces is well-formed. Evaluated for every traced input. (That both models agree on canonical input is a theorem,
+`C03.lax_agrees_on_canonical`; it is still evaluated on the `canon` lines, where both parsers run anyway.) -/
+def onTbs (h : String) (f : Bytes → Option Tbs → String) : String :=
   match fromHex h with
   | none => "bad-op"
-  | some bs => if (parseTbs bs).isSome then f bs else "noncanon"
+  | some bs =>
+    let lt := laxTbs bs
+    match lt with
+    | some t => if t.wf then f bs lt else "MODEL-INCONSISTENT normal-form-not-wf"
+    | none => f bs lt
 
-def parseItems : Nat → List String → Option (List Bytes)
-  | 0, [] => some []
-  | n + 1, s :: rest =>
-    match fromHex s, parseItems n rest with
-    | some b, some l => some (b :: l)
-    | _, _ => none
-  | _, _ => none
+def canonLine (bs : Bytes) (lt : Option Tbs) : String :=
+  let ps := parseTbs bs
+  match ps, lt with
+  | some t, some t' => if t == t' && marshalTbs t' == bs then "1" else "MODEL-INCONSISTENT canonical"
+  | some _, none => "MODEL-INCONSISTENT canonical-but-not-accepted"
+  | none, some t' => if marshalTbs t' == bs then "MODEL-INCONSISTENT reproduced-but-not-canonical" else "0"
+  | none, none => "0"
+
+def leafPre (lt : Option Tbs) (keys : List Bytes) (pre : Option PreIssuer) : Option (Bytes × Bytes) :=
+  match keys with
+  | [] => none
+  | k1 :: rest' =>
+    match pre with
+    | none => (buildPrecertTBSLaxOf lt none).map (·, k1)
+    | some p =>
+      match rest' with
+      | [] => none
+      | k2 :: _ => (buildPrecertTBSLaxOf lt (some p)).map (·, k2)
 
 def handle (line : String) : String :=
   match tokens line with
   | "T" :: rest => go rest
   | rest => go rest
 where go : List String → String
-  | ["canon", h] =>
-    match fromHex h with
-    | none => "bad-op"
-    | some bs => boolStr (parseTbs bs).isSome
+  | ["canon", h] => onTbs h canonLine
+  | ["remarshal", h] => onTbs h fun _ lt => showRes (lt.map marshalTbs)
   | ["rm", which, h] =>
     let oid := if which = "sct" then some sct else if which = "poison" then some poison else fromHex which
     match oid with
     | none => "bad-op"
-    | some oid => onTbs h fun bs => showRes (removeExt oid bs)
-  | "build" :: h :: pre =>
-    match parsePre pre with
+    | some oid => onTbs h fun _ lt => showRes (removeExtLaxOf oid lt)
+  | "build" :: h :: c1 =>
+    match parseC1 c1 with
     | none => "bad-op"
-    | some p => onTbs h fun bs => showRes (buildPrecertTBS bs p)
-  | "leafpre" :: h :: n :: pre =>
-    match parsePre pre, parseNat? n with
-    | some p, some n => onTbs h fun bs => showLeaf (leafFromPrecertChain bs (keysOf n) p)
-    | _, _ => "bad-op"
-  | ["leafemb", h, n] =>
+    | some c => onTbs h fun _ lt => showRes (buildPrecertTBSLaxOf lt (c.map Chain1.pre))
+  | "leafpre" :: h :: n :: rest =>
     match parseNat? n with
-    | some n => onTbs h fun bs => showLeaf (leafForEmbeddedSCT bs (keysOf n))
     | none => "bad-op"
+    | some n =>
+      match parseList (n - 1) rest with
+      | none => "bad-op"
+      | some (keys, c1) =>
+        match parseC1 c1 with
+        | none => "bad-op"
+        | some c => onTbs h fun _ lt => showLeaf (leafPre lt keys (preIssuerOf c))
+  | "leafemb" :: h :: n :: rest =>
+    match parseNat? n with
+    | none => "bad-op"
+    | some n =>
+      match parseList (n - 1) rest with
+      | some (keys, []) => onTbs h fun _ lt =>
+        match keys with
+        | [] => "err"
+        | k1 :: _ => showLeaf ((removeExtLaxOf sct lt).map (·, k1))
+      | _ => "bad-op"
   | "sctenc" :: n :: items =>
     match parseNat? n with
     | none => "bad-op"
     | some n =>
-      match parseItems n items with
-      | none => "bad-op"
-      | some l => showRes (sctExtValue lim l)
+      match parseList n items with
+      | some (l, []) => showRes (sctExtValue l)
+      | _ => "bad-op"
   | ["sctdec", h] =>
     match fromHex h with
     | none => "bad-op"
     | some v =>
-      match parseSctExtValue lim v with
-      | none => "err"
+      match parseSctExtValue v with
+      | none => "err-nonfatal"   -- `parseCertificate` records a NonFatalError and still returns the certificate
       | some l => joinSp ("ok" :: toString l.length :: l.map hexOrDash)
   | _ => "bad-op"
 
